@@ -298,7 +298,7 @@ pub fn spec() -> PropSpec {
     PropSpec {
         id: "C05",
         families: vec![Family { name: "tiny-limits", f: fam_tiny, weight: 50 }, Family { name: "general", f: fam_general, weight: 30 }, Family { name: "multi", f: fam_multi, weight: 20 }],
-        quick_worlds: 20_000,
+        quick_worlds: 50_000,
         thorough_worlds: 600_000,
         panic_is_violation: false,
         rule: "each world = stream workloads under limit configurations drawn from {0,1,2, values around 2^6 and 2^14, defaults}, run-time window / stream-limit changes, and network faults that delay, reorder, duplicate and drop the credit-carrying packets; non-trivial = a fault fired or >1 connection; distinct = distinct abstract-event signature",
